@@ -18,7 +18,7 @@ LEVEL = 'model_checking'
 
 FCH, TCH, DF, DT = 16, 4, 2.0, 1.0
 
-SIGNALS = ['gauss_drift', 'box_sine', 'array_forms', 'scalar_forms', 'int_path_t', 'int_f', 'smear', 'all_flags', 'smear_arrays', 'pulse_phase']
+SIGNALS = ['gauss_drift', 'box_sine', 'array_forms', 'scalar_forms', 'int_path_t', 'int_f', 'smear', 'all_flags', 'smear_arrays', 'pulse_phase', 'int_f_bparr']
 RANGES = ['none', 'inside', 'clip_low', 'clip_high', 'above', 'below', 'single', 'reversed']
 BAD = ['bad_shape', 'bad_type', 'bad_cadence']
 
@@ -66,6 +66,10 @@ def signal_args(fr, name):
     if name == 'int_f':
         return dict(path=stg.constant_path(f(6), 0.9), t_profile=1.0, f_profile=stg.gaussian_f_profile(1.5),
                     bp_profile=(lambda ff: 1.0 + 0.01 * (np.asarray(ff) - 1000.0)), integrate_f_profile=True, f_subsamples=2)
+    if name == 'int_f_bparr':
+        # a per-channel bandpass ARRAY together with sub-channel integration of the frequency profile
+        return dict(path=stg.constant_path(f(7), -0.6), t_profile=2.0, f_profile=stg.gaussian_f_profile(2.2),
+                    bp_profile=0.5 + 0.05 * np.arange(FCH), integrate_f_profile=True, f_subsamples=3)
     if name == 'smear':
         return dict(path=stg.constant_path(f(3), 2.6), t_profile=1.0, f_profile=stg.box_f_profile(1.0 * DF),
                     doppler_smearing=True, smearing_subsamples=3)
@@ -166,6 +170,8 @@ def col_masks(fr, rng_):
 def inject(fr, step, V, wd, check=True, ctrl_noise=None):
     """One transition on the real frame.  Returns the returned signal (or None for a rejected call)."""
     sname, rname = step
+    if sname == 'int_f_bparr':
+        rname = 'none'        # a bandpass array has one entry per channel of the WHOLE band: this form is injected unbounded
     before = np.array(fr.data, copy=True)
     # the noise estimates are deliberately NOT read before the call (a lazily computed estimate would otherwise be
     # pinned by the harness itself); afterwards they must equal those of an untouched control frame (ctrl_noise)
